@@ -7,7 +7,7 @@ use proc_macro2::{Ident, TokenStream};
 use quote::{format_ident, quote};
 
 use super::common::{
-    check_ident, generate_derives, generate_enum_type, generate_field_type, generate_rule_parse_function,
+    check_ident, check_name, generate_derives, generate_enum_type, generate_field_type, generate_rule_parse_function,
     safe_ident, Arity, Codegen, CodegenRule, CodegenSettings, FieldDescriptor, PublicType,
     RecordPosition,
 };
@@ -19,7 +19,7 @@ impl CodegenRule for Rule {
         grammar: &Grammar,
         settings: &CodegenSettings,
     ) -> Result<(TokenStream, TokenStream)> {
-        check_ident(&self.name)?;
+        check_name(&self.name)?;
         let flags = self.flags();
         let settings = CodegenSettings {
             skip_whitespace: settings.skip_whitespace && !flags.no_skip_ws,
@@ -105,8 +105,8 @@ impl Rule {
         if self.name == "Whitespace" && !flags.no_skip_ws {
             bail!("The 'Whitespace' rule (and all called rules) must be @no_skip_ws to prevent recursion");
         }
-        if flags.memoize && !settings.derives.contains(&"Clone".into()) {
-            bail!("@memoize can only be used if 'Clone' is in the derives set");
+        if (flags.memoize || flags.left_recursive) && !settings.derives.contains(&"Clone".into()) {
+            bail!("@memoize and @leftrec can only be used if 'Clone' is in the derives set");
         }
         Ok(())
     }
